@@ -361,4 +361,41 @@ def State.isDone (s : State) (minDepth : Nat) : Bool :=
   s.deepEnough s.dsHeight minDepth || s.deepEnough s.mutualHeight minDepth
     || s.deepEnough s.closingSweptHeight minDepth
 
+/-! ### The views other components read
+
+`ChainMonitor::{funding_depth, funding_double_spent_depth, closing_depth}` (saturating, through `depth_of`) and
+`ChainMonitorBase::as_chain_state` (the `ChainState` handed to the validator; plain `u32` arithmetic
+`state.height + 1 - h`, which underflows — panic in an overflow-checked build — when a recorded height exceeds
+`height + 1`).  Note the two different preferences when both closing heights are recorded: `closing_depth` takes
+`unilateral.or(mutual)`, `as_chain_state` takes `mutual.or(unilateral)`. -/
+
+def State.fundingDepth (s : State) : Nat := s.depthOf s.fundingHeight
+
+def State.dsDepth (s : State) : Nat := s.depthOf s.dsHeight
+
+/-- `Option::or` -/
+def orOpt (a b : Option Nat) : Option Nat := match a with | some x => some x | none => b
+
+def State.closingDepth (s : State) : Nat := s.depthOf (orOpt s.uniHeight s.mutualHeight)
+
+/-- `policy::validator::ChainState` -/
+structure ChainState where
+  currentHeight : Nat
+  fundingDepth : Nat
+  dsDepth : Nat
+  closingDepth : Nat
+  deriving Repr, DecidableEq, Inhabited
+
+/-- `.map(|h| state.height + 1 - h).unwrap_or(0)`; `none` = the subtraction underflows -/
+def State.plainDepth (s : State) : Option Nat → Option Nat
+  | none => some 0
+  | some h => if h ≤ s.height + 1 then some (s.height + 1 - h) else none
+
+/-- `ChainMonitorBase::as_chain_state`; `none` = arithmetic panic -/
+def State.chainState (s : State) : Option ChainState :=
+  match s.plainDepth s.fundingHeight, s.plainDepth s.dsHeight,
+        s.plainDepth (orOpt s.mutualHeight s.uniHeight) with
+  | some f, some d, some c => some ⟨s.height, f, d, c⟩
+  | _, _, _ => none
+
 end VlsModel.Monitor
